@@ -35,7 +35,7 @@ Definition bbind {A C} (m : B A) (f : A -> B C) : B C := fun b =>
 Notation "x <~ m ;; f" := (bbind m (fun x => f)) (at level 61, m at next level, right associativity).
 
 Definition W64 := 18446744073709551616.
-Definition MIN_GET_BITS := 25.
+Definition MIN_GET_BITS := 57.     (* BIT_BUF_SIZE - 7 with the 64-bit bit_buf_type; tied to jdhuff.c by C09_source_constants *)
 
 (* the byte loop of jpeg_fill_bit_buffer; ff = inside the do { } while (c == 0xFF) loop *)
 Inductive fres := FFull (g l : Z) (r : list byte) | FMarker (c g l : Z) (r : list byte) | FSuspend.
